@@ -603,8 +603,13 @@ func runFetch(enc *json.Encoder, sc fetchScn, scratch string, n int) {
 	if sc.Kind == "d1_signed" && sc.Variant != "canon" {
 		return // a signed payload cannot be re-serialised
 	}
-	if sc.Via == "ocidir" && (sc.Hdr != "absent" || sc.HdrMT != "absent") {
-		return // a layout has no headers
+	if sc.Via == "ocidir" {
+		// a layout has no headers; what announces a digest there is the entry of index.json, used for a
+		// pull by tag: that entry's digest is the scenario's `hdr`
+		byTag := sc.Desc == "absent" && sc.Ref == "absent"
+		if sc.HdrMT != "absent" || (byTag && sc.Hdr == "absent") || (!byTag && sc.Hdr != "absent") {
+			return
+		}
 	}
 	if sc.Via == "regplat" && (sc.Ref != "absent" || sc.Desc == "absent" || (sc.Kind != "oci_image" && sc.Kind != "d2_image")) {
 		return // the child of an index entry: an image, asked for by the entry's digest
@@ -652,6 +657,8 @@ func runFetch(enc *json.Encoder, sc fetchScn, scratch string, n int) {
 		switch sc.Form {
 		case "mt_desc", "mt_desc_first":
 			descOpt = manifest.WithDesc(descriptor.Descriptor{MediaType: kindMT(sc.Kind), Size: int64(len(body)), Digest: digest.Digest(descDig)})
+		case "size_desc":
+			descOpt = manifest.WithDesc(descriptor.Descriptor{Size: int64(len(body)) + 7, Digest: digest.Digest(descDig)})
 		default:
 			if descDig != "" {
 				descOpt = manifest.WithDesc(descriptor.Descriptor{Digest: digest.Digest(descDig)})
@@ -738,14 +745,18 @@ func runFetch(enc *json.Encoder, sc fetchScn, scratch string, n int) {
 		}
 		fileDig := want
 		if fileDig == "" {
-			fileDig = "sha256:" + h256(canon)
+			fileDig = hdrDig // pull by tag: the digest the index entry announces (right, right sha512, wrong)
+		}
+		entrySize := len(body)
+		if sc.Form == "size_entry" {
+			entrySize += 7
 		}
 		alg, hx, _ := strings.Cut(fileDig, ":")
 		_ = os.MkdirAll(filepath.Join(dir, "blobs", alg), 0o755)
 		_ = os.WriteFile(filepath.Join(dir, "oci-layout"), []byte(`{"imageLayoutVersion":"1.0.0"}`), 0o644)
 		_ = os.WriteFile(filepath.Join(dir, "blobs", alg, hx), body, 0o644)
 		idx := fmt.Sprintf(`{"schemaVersion":2,"mediaType":"application/vnd.oci.image.index.v1+json","manifests":[{"mediaType":%q,"digest":%q,"size":%d,"annotations":{"org.opencontainers.image.ref.name":"tag"}}]}`,
-			kindMT(sc.Kind), fileDig, len(body))
+			kindMT(sc.Kind), fileDig, entrySize)
 		_ = os.WriteFile(filepath.Join(dir, "index.json"), []byte(idx), 0o644)
 		rc := regclient.New()
 		rs := "ocidir://" + dir + ":tag"
@@ -764,10 +775,7 @@ func runFetch(enc *json.Encoder, sc fetchScn, scratch string, n int) {
 		_ = rc.Close(ctx, r)
 		_ = os.RemoveAll(dir)
 		// in a layout the digest asked for is also the file name: the governing source is desc, else ref,
-		// else the index entry (logged as hdr so that the model's precedence applies unchanged)
-		if sc.Desc == "absent" && sc.Ref == "absent" {
-			ev["hdr"] = "right256"
-		}
+		// else the index entry (the scenario's hdr, so that the model's precedence applies unchanged)
 	}
 	if err != nil || m == nil {
 		ev["ok"] = 0
